@@ -605,6 +605,21 @@ func (e *E) checkTraversal(result reflect.Value, log []Hit) {
 			}
 			// Validate methods of leaf values
 			switch fc.F.Kind {
+			case KInner, KPInner, KIfPInner:
+				// the hand-written struct with a Validate method of its own: by value, behind a pointer,
+				// behind a pointer held by an interface
+				in := f
+				for in.Kind() == reflect.Ptr || in.Kind() == reflect.Interface {
+					if in.IsNil() {
+						break
+					}
+					in = in.Elem()
+				}
+				if in.Kind() == reflect.Struct {
+					if y := in.FieldByName("Y").String(); !seenValidate["Inner"][y] {
+						e.fail("validators-run", "Unpack", map[string]string{"field": fc.Path, "kind": fc.F.Kind.String()}, "Unpack succeeded but Validate() was never called on the final value (y = %q) of field %s (%s, pre-filled=%v, mentioned=%v)", y, fc.Path, fc.F.Kind, fc.Pre, fc.Mention)
+					}
+				}
 			case KVInt:
 				if !seenValidate["VInt"][fmt.Sprint(f.Int())] {
 					e.fail("validators-run", "Unpack", map[string]string{"field": fc.Path, "kind": fc.F.Kind.String()}, "Unpack succeeded but Validate() was never called on the final value %d of field %s (%s)", f.Int(), fc.Path, fc.F.Kind)
